@@ -452,6 +452,14 @@ theorem facts_binding_route_bodies :
     prepareRouteRequestsBody = Expected.prepareRouteRequestsBody :=
   ⟨rfl, rfl, rfl, rfl⟩
 
+/-- policy ancestors of Service-targeting policies: `Graph.attachPolicies`, `attachPolicyToService` (with the
+`ancestorsContainsAncestorRef` test in BOTH branches), `ancestorsContainsAncestorRef` — mirrored by `NGF.Model.PolicyAttach` -/
+theorem facts_policy_attach_bodies :
+    attachPoliciesBody = Expected.attachPoliciesBody ∧ attachPolicyToServiceBody = Expected.attachPolicyToServiceBody ∧
+    ancestorsContainsAncestorRefBody = Expected.ancestorsContainsAncestorRefBody ∧
+    NGF.StatusPrep.lookup "NewPolicyTargetNotFound" = some [NGF.PolicyAttach.targetNotFound] :=
+  ⟨rfl, rfl, rfl, by decide⟩
+
 end bodies
 
 end NGF.PipelineStatus
